@@ -44,6 +44,14 @@ fn main() {
             let mut o = util::Out::create(&out);
             let mut rng = util::Rng::new(seed);
             let mut fails = 0;
+            for (name, p, script, manual) in rc::corpus() {
+                let (line, mon) = rc::run_case_tuned(&p, &mut rng, Some(script), Some(manual));
+                o.line(&line);
+                for m in mon {
+                    fails += 1;
+                    o.line(&format!("{} [corpus {}]", m, name));
+                }
+            }
             for _ in 0..n {
                 let p = rc::gen_program(&mut rng, thorough);
                 let (line, mon) = rc::run_case(&p, &mut rng, None);
